@@ -280,7 +280,7 @@ func c03CloseBody(c *Ctx) {
 		return
 	}
 	m := c.machine()
-	dom := &fold.IntDom{Name: "len(reason)", Lo: 0, Hi: 1 << 40}
+	dom := &fold.IntDom{Name: "len(reason)", Lo: 0, Hi: bigLen()}
 	code := &fold.IntDom{Name: "code", Lo: 0, Hi: 65535}
 	paths, err := m.ExploreCells(f, []*fold.IntDom{dom, code}, func(m *fold.Machine, cells []fold.Int) []fold.Val {
 		return []fold.Val{cells[1], fold.SymSeq{Name: "reason", Len: cells[0], IsStr: true}}
@@ -360,7 +360,7 @@ func c03ParseClose(c *Ctx) {
 			cl.M.Emit(fold.Effect{Kind: "call", Name: "LittleEndian.Uint16", Args: cl.Args[1:]})
 			return fold.Int{Lo: 0, Hi: 65535, Name: "le16(" + fold.Show(cl.Args[1]) + ")"}
 		}
-		dom := &fold.IntDom{Name: "len(payload)", Lo: 0, Hi: 1 << 40, Cuts: []int64{2}}
+		dom := &fold.IntDom{Name: "len(payload)", Lo: 0, Hi: bigLen(), Cuts: []int64{2}}
 		paths, err := m.ExploreCells(f, []*fold.IntDom{dom}, func(m *fold.Machine, cells []fold.Int) []fold.Val {
 			return []fold.Val{fold.SymSeq{Name: "payload", Len: cells[0]}}
 		}, nil)
